@@ -5,5 +5,6 @@ pub mod fuzz;
 pub mod gen;
 pub mod known;
 pub mod model;
+pub mod nest_scenario;
 pub mod oracle;
 pub mod props;
